@@ -21,7 +21,7 @@ presents CS5 msb-first and CRC-8 lsb-first (test_vbptc_128_72 / test_vbptc_68_36
 The library's computation is additionally compared with the reference arithmetic above.
 """
 from mc import env  # noqa: F401
-from mc import par, spaces
+from mc import par, spaces, hist
 from mc.report import Report, Acc, exc_sig
 from mc.oracle import gf2
 
@@ -557,6 +557,96 @@ def run(only=None):
                 except Exception as e:
                     s.violation("exception_little_endian:" + exc_sig(e), case, repr(e))
                 s.case(nontrivial=True, calls=2 + 2 * len(ext_fs), outcome=code, sample=case if len(s.samples) < 1 else None)
+        s.done()
+
+
+    if want("input_containers"):
+        s = rep.sub("input_containers",
+                    "per codec: weight <= 1 messages + complements + seed words x {frozenbitarray, bitarray with a live memoryview, bitarray "
+                    "over an imported read-only / writable buffer}: encode and the extractors give the same bits as for a plain bitarray "
+                    "and leave the argument as it was")
+        for code, K_, enc_f, ext_fs in (
+            ("32_11", 11, lambda b: VBPTC3211.encode(b, True), (VBPTC3211.deinterleave_data_bits, VBPTC3211.deinterleave_all_bits)),
+            ("128_72", 72, VBPTC12873.encode, (VBPTC12873.deinterleave_data_bits, VBPTC12873.deinterleave_all_bits, VBPTC12873.deinterleave_cs5_bits)),
+            ("68_28", 28, VBPTC6828.encode, (VBPTC6828.deinterleave_data_bits, VBPTC6828.deinterleave_all_bits, VBPTC6828.deinterleave_crc8_bits)),
+        ):
+            msgs = spaces.small_scope_messages(K_, 1, extra=[env.det_bits(f"c09-cont-{code}-{i}", K_) for i in range(4)])
+            for m in msgs:
+                case = {"code": code, "message": m}
+                try:
+                    ref = enc_f(bitarray(m)).to01()
+                    refs = [f(bitarray(ref)).to01() for f in ext_fs]
+                except Exception as e:  # noqa: BLE001
+                    s.violation("exception_containers:" + exc_sig(e), case, repr(e))
+                    continue
+                for kind_, arg, keep in hist.bit_containers(m):
+                    try:
+                        if enc_f(arg).to01() != ref:
+                            s.violation(f"encode_differs_for_container:{code}:{kind_}", case)
+                        if arg.to01() != m:
+                            s.violation(f"encode_alters_argument:{code}:{kind_}", case)
+                    except Exception as e:  # noqa: BLE001
+                        s.violation(f"exception_encode_container:{code}:{kind_}:" + exc_sig(e), case, repr(e))
+                    del keep
+                    s.case(nontrivial=True, calls=1, outcome=(code, kind_), sample={**case, "container": kind_} if len(s.samples) < 2 else None)
+                for kind_, arg, keep in hist.bit_containers(ref):
+                    try:
+                        for f, w_ in zip(ext_fs, refs):
+                            if f(arg).to01() != w_:
+                                s.violation(f"extractor_differs_for_container:{code}:{f.__name__}:{kind_}", case)
+                        if arg.to01() != ref:
+                            s.violation(f"extractor_alters_argument:{code}:{kind_}", case)
+                    except Exception as e:  # noqa: BLE001
+                        s.violation(f"exception_extract_container:{code}:{kind_}:" + exc_sig(e), case, repr(e))
+                    del keep
+                    s.case(nontrivial=True, calls=len(ext_fs), outcome=(code, kind_))
+        s.done()
+
+    if want("history_with_out_of_range_calls"):
+        s = rep.sub("history_with_out_of_range_calls",
+                    "every public function of the three codecs x 10 out-of-range arguments (empty, short, over-long, wrong container); "
+                    "whatever that call does, the next valid encode / extract of 2 messages per codec gives the reference result")
+        import numpy as _np
+        funcs = {}
+        for cname, cls_ in (("VBPTC3211", VBPTC3211), ("VBPTC12873", VBPTC12873), ("VBPTC6828", VBPTC6828)):
+            for fn in ("encode", "deinterleave_all_bits", "deinterleave_data_bits", "deinterleave_cs5_bits", "deinterleave_crc8_bits", "set_parity"):
+                if hasattr(cls_, fn):
+                    funcs[f"{cname}.{fn}"] = getattr(cls_, fn)
+        bad_args = [
+            ("empty_bitarray", lambda: bitarray()), ("bitarray_7", lambda: bitarray("1011011")), ("bitarray_73", lambda: bitarray("1" * 73)),
+            ("bitarray_129", lambda: bitarray("10" * 64 + "1")), ("bitarray_200", lambda: bitarray("110" * 66 + "11")), ("bytes_9", lambda: bytes(range(9))),
+            ("list_11", lambda: [1, 0, 1, 1, 0, 1, 0, 0, 1, 1, 1]), ("numpy_16", lambda: _np.array([1] * 16)), ("numpy_3", lambda: _np.array([1, 0, 1])),
+            ("none", lambda: None),
+        ]
+        probes = []
+        for code, K_, enc_f, dec_f in (("32_11", 11, lambda b: VBPTC3211.encode(b, True), VBPTC3211.deinterleave_data_bits),
+                                       ("32_11_odd", 11, lambda b: VBPTC3211.encode(b, False), VBPTC3211.deinterleave_data_bits),
+                                       ("128_72", 72, VBPTC12873.encode, VBPTC12873.deinterleave_data_bits),
+                                       ("68_28", 28, VBPTC6828.encode, VBPTC6828.deinterleave_data_bits)):
+            for i in range(2):
+                m = env.det_bits(f"c09-oor-{code}-{i}", K_)
+                probes.append((f"encode_{code}", lambda m=m, enc_f=enc_f: enc_f(bitarray(m)).to01()))
+                probes.append((f"extract_{code}", lambda m=m, enc_f=enc_f, dec_f=dec_f: dec_f(enc_f(bitarray(m))).to01()))
+        hist.poisoned_histories(s, funcs, bad_args, probes)
+        s.done()
+
+    if want("long_call_history"):
+        s = rep.sub("long_call_history",
+                    "encode / extract of one fixed message per codec called again and again in one process: the result never depends on how "
+                    "many calls came before.  Depth 3 when a call leaves class/module data untouched (observed), 2^16+256 calls per entry "
+                    "point when it does not, and always in the thorough tier")
+        import okdmr.dmrlib.etsi.fec.vbptc_128_72 as _m128, okdmr.dmrlib.etsi.fec.vbptc_68_28 as _m68, okdmr.dmrlib.etsi.fec.vbptc_32_11 as _m32
+        import okdmr.dmrlib.etsi.fec.five_bit_checksum as _m5, okdmr.dmrlib.etsi.crc.crc8 as _mc8
+        l128, l68, l32 = env.det_bits("c09-long-128", 72), env.det_bits("c09-long-68", 28), env.det_bits("c09-long-32", 11)
+        e128, e68, e32 = VBPTC12873.encode(bitarray(l128)), VBPTC6828.encode(bitarray(l68)), VBPTC3211.encode(bitarray(l32), True)
+        hist.long_history(s, [VBPTC12873, VBPTC6828, VBPTC3211, FiveBitChecksum, CRC8, _m128, _m68, _m32, _m5, _mc8], [
+            ("encode_128_72", lambda: VBPTC12873.encode(bitarray(l128)).to01()),
+            ("extract_128_72", lambda: VBPTC12873.deinterleave_data_bits(bitarray(e128)).to01()),
+            ("encode_68_28", lambda: VBPTC6828.encode(bitarray(l68)).to01()),
+            ("extract_68_28", lambda: VBPTC6828.deinterleave_data_bits(bitarray(e68)).to01()),
+            ("encode_32_11", lambda: VBPTC3211.encode(bitarray(l32), True).to01()),
+            ("extract_32_11", lambda: VBPTC3211.deinterleave_data_bits(bitarray(e32)).to01()),
+        ], always=rep.thorough())
         s.done()
 
     rep.bounds = {
